@@ -317,6 +317,11 @@ func gen(r *lib.Rand, tier, stream string, i int) History {
 			push(Step{K: "mint", S: s, C: c, T: t, N: anyStr(), U: anyStr(), H: anyStr(), D: dataStrict(), R: rc})
 		case 2:
 			c, t := pickToken()
+			for try := 0; try < 3; try++ { // mostly aim edits at classes where editing is allowed at all
+				if cl := sh.classes[c]; cl != nil && cl.ur && r.Chance(3, 4) {
+					c, t = pickToken()
+				}
+			}
 			keepAll := r.Chance(1, 8)
 			d := field(keepAll || r.Chance(1, 2))
 			if d < 0 && r.Chance(2, 3) {
